@@ -48,7 +48,7 @@ def check(cx):
         bad = []
         for n in sites:
             n_sites += 1
-            hs = [h for h in held[n['id']] if 'observer_data' in h[1] or h[1].endswith('.0') or h[1] == 'self.0' or 'data' in h[1]]
+            hs = list(held[n['id']])  # any library guard: nothing may be subscribed / run while one is held here
             if hs:
                 bad.append((n, hs))
         if not sites:
@@ -96,11 +96,14 @@ def f3(cx, prop, rule):
             label = cx.label(fn)
             n += 1
 
+            # the shared state cell: the (only) field that is a MutRc|MutArc<Option<local struct or tuple>>
+            state = {'self.' + f for f, t in roles.adt_fields(cx, tag) if roles.is_cell_of(F, F.ty(t), lambda o: roles.is_option_of(F, o, lambda x: x['k'] in ('adt', 'tuple') and not x.get('p', '').startswith('smallvec')))}
+
             def step(st, nd, lab):
                 if st == 'BAD':
                     return None
                 gd = guard_of(nd)
-                if gd and not nd['ctx'] and ('observer_data' in gd[1] or gd[1] in ('self.0', 'self.state')):
+                if gd and not nd['ctx'] and gd[1] in state:
                     if st >= 1:
                         return 'BAD'
                     return st + 1
